@@ -55,6 +55,26 @@ class C07(C06):
                         g[2] = g[1]
                 g = ['repeat', 0, 'inf', ['either', ['left', g, ['one', 'Semi']], ['any', 'A', 'B', 'C', 'Comma', 'Semi']]]
             t = spangen.random_text(r, alpha, 14 if tier == 'quick' else 30)
+            if k == 2:
+                # long runs of items: every variant x every (low, high) with the text holding fewer, exactly and more items than
+                # high (the upper bound must stop the repetition, the counting variants must agree with the collecting ones)
+                kind = r.choice(REPS)
+                lo = r.below(3); hi = r.choice(['inf', lo, lo + 1, lo + 2, 1, 2])
+                if hi != 'inf' and hi < lo: hi = lo
+                item = r.choice([['one', 'A'], ['any', 'A', 'B']])
+                stop = r.choice([['one', 'Semi'], ['one', 'C']])
+                if kind in ('repeat', 'repeatcount'): g = [kind, lo, hi, item]; seps = []
+                elif kind in ('repeatuntil', 'repeatcountuntil'): g = [kind, lo, hi, stop, item]; seps = []
+                elif kind in ('intersperse', 'interspersecount'): g = [kind, lo, hi, item, ['one', 'Comma']]; seps = ['comma']
+                elif kind in ('intersperseuntil', 'interspersecountuntil'): g = [kind, lo, hi, stop, item, ['one', 'Comma']]; seps = ['comma']
+                else: g = [kind, lo, hi, item, 'Comma']; seps = ['comma']
+                nitems = r.below(6)
+                t = []
+                for ii in range(nitems):
+                    t += [r.choice(['a', 'a', 'b'])] + (['sp'] if r.chance(1, 4) else [])
+                    if ii < nitems - 1 or r.chance(1, 3):
+                        t += seps
+                t += r.choice([[], ['semi'], ['c'], ['bang']])
             if k == 3:
                 # until-variants whose stop parser overlaps the items / "separator then item": where the stop parser is
                 # probed (at the item boundary, before the separator) decides the result
